@@ -331,14 +331,14 @@ fn ctor_faults<const N: usize, P: Pad>(ctx: &mut Ctx, kinds: &[FpKind]) {
             let mut count = 0;
             if ctx.begin_case(|| format!("faults N={} T={} from_iter items={} kind={} k=0(dry)", N, P::NAME, k_items, kind.name())) {
                 ledger_reset();
-                count = from_iter_case::<N, P>(k_items, (k_items % 4) as u8, Some((kind, 0)), ctx, &fol).1;
+                count = from_iter_case::<N, P>(k_items, (k_items % 5) as u8, Some((kind, 0)), ctx, &fol).1;
             }
             for k in 1..=count {
                 if !ctx.begin_case(|| format!("faults N={} T={} from_iter items={} kind={} k={}/{}", N, P::NAME, k_items, kind.name(), k, count)) {
                     continue;
                 }
                 ledger_reset();
-                let (fired, _) = from_iter_case::<N, P>(k_items, (k_items % 4) as u8, Some((kind, k)), ctx, &fol);
+                let (fired, _) = from_iter_case::<N, P>(k_items, (k_items % 5) as u8, Some((kind, k)), ctx, &fol);
                 ctx.count("faults_injected", 1);
                 if fired {
                     ctx.distinct.insert(hash64(&format!("{}|{}", key, k)));
